@@ -15,6 +15,31 @@ def strip_ts(msg):
 
 
 # --------------------------------------------------------------------------------- scenario
+def add_tail(R, scn):
+    """how the connection ends (C20): an honoured close request as the last line, the peer closing / resetting after a prefix
+    of the bytes, or the k-th write failing; with an I/O handler absent / returning True / returning False"""
+    tail = R.choice([None, "close", "close", "eof", "reset", "wfail"])
+    scn["tail"] = tail
+    scn["io_handler"] = R.choice(["absent", True, False])
+    scn["probe"] = False
+    if tail == "close":
+        scn["chunks"] = scn["chunks"] + ["0|CLOSE%s\r\n" % R.choice(["", "|S|reason|S|shutdown"])]
+    elif tail in ("eof", "reset"):
+        stream = "".join(scn["chunks"])
+        cut = R.choice([0, len(stream), R.randrange(0, len(stream) + 1), len("1|DPI|S|ARI.version|S|1.9.1\r\n")])
+        out, left = [], cut
+        for c in scn["chunks"]:
+            if left <= 0:
+                break
+            out.append(c[:left])
+            left -= len(c)
+        scn["chunks"] = out
+        scn["end"] = tail
+    elif tail == "wfail":
+        scn["fail_write_at"] = R.randrange(1, 10)
+    return scn
+
+
 def gen_scenario(R, size="small", max_items=3):
     nitems = min(max_items, R.choice([1, 1, 2, 2, 3]))
     items = ["item%d" % i for i in range(1, nitems + 1)]
@@ -230,6 +255,15 @@ def run_real(scn, choose):
 
     srv = S.DataProviderServer(Adapter(), ("proxy", 6661), keep_alive=0, thread_pool_size=scn["pool"])
     srv._subscription_mgr._active_items_lock.label = "mgr"
+    if scn.get("io_handler", "absent") != "absent":
+        class H(S.ExceptionHandler):
+            def handle_exception(self, e):
+                return True                     # the default handling (failure notification) runs as without a handler
+            def handle_ioexception(self, e):
+                sched.event("iohandler", sched.me().name, type(e).__name__)
+                return scn["io_handler"]
+        srv.set_exception_handler(H())
+    sock.fail_write_at = scn.get("fail_write_at")
     srv.remote_user, srv.remote_password = scn.get("user"), scn.get("password")
     run.srv = srv
 
@@ -249,8 +283,9 @@ def run_real(scn, choose):
             its.append("%s[act=%s,held=%s,gens=%s]" % (item, acts, held, gs))
         ex = srv._executor
         sq = srv._request_manager._reply_sender._send_queue if srv._request_manager else None
-        return "items:%s|pool:q=%s;run=%d|sendq=%d|init=%s" % (
-            " ".join(its), ",".join(ex.workq), ex.running, len(sq.items) if sq else 0, "t" if srv.init_expected else "f")
+        return "items:%s|pool:q=%s;run=%d|sendq=%d|init=%s|sock=%s" % (
+            " ".join(its), ",".join(ex.workq), ex.running, len(sq.items) if sq else 0, "t" if srv.init_expected else "f",
+            "closed" if sock.closed else "open")
     run.registry, run.cur = registry, cur
 
     def main():
@@ -261,6 +296,9 @@ def run_real(scn, choose):
             sched.park(("deliver", c))
             sock.inbound.append(c.encode("ascii"))
             sched.event("deliver", c)
+        if scn.get("end"):
+            sched.park(("eoi",))
+            sock.in_eof = scn["end"]
     try:
         if scn.get("early"):
             # request bytes already readable at connect time: the proxy delivers everything before start()
@@ -326,6 +364,8 @@ def run_real(scn, choose):
                 if status in ("quiescent", "exited", "stopped"):
                     break
         run.final_enabled = sorted(t.name for t in sched.enabled())
+        run.alive = {t.name: t.op for t in sched.threads.values() if not t.done}
+        run.tasks_unfinished = [t.name for t in sched.threads.values() if t.kind == "task" and not (t.started and t.done)]
         run.chunks = sched.chunks
         run.final_snapshot = snapshot()
         run.active_items = dict(srv._subscription_mgr._active_items)
@@ -363,7 +403,8 @@ def exc_tok_named(name, msg):
 def driver_lines(run):
     """One `k …` line per model-relevant chunk; returns (lines, index map to chunks)."""
     scn = run.scn
-    lines, idx = ["cosim data %d %s %s" % (scn["pool"], ari.c_optstr(scn.get("user")), ari.c_optstr(scn.get("password")))], [None]
+    lines, idx = ["cosim data %d %s %s %s" % (scn["pool"], ari.c_optstr(scn.get("user")), ari.c_optstr(scn.get("password")),
+                                              {"absent": "n", True: "t", False: "f"}[scn.get("io_handler", "absent")])], [None]
     chunks = run.chunks
     lsn_pending = {}      # thread -> event dict of the listener call in progress
     for n, ch in enumerate(chunks):
@@ -421,7 +462,13 @@ def driver_lines(run):
         elif kind == "get":
             o = "get " + ("t" if ch["timeout"] else "f")
         elif kind == "send":
-            o = "send"
+            o = "sendfail" if any(e[0] == "send-fails" for e in ch["events"]) else "send"
+        elif kind == "join":
+            o = "join"
+        elif kind == "pool-shutdown":
+            o = "poolwait"
+        elif kind == "eoi":
+            o = "eoi"
         elif kind == "deliver":
             o = "deliver " + C.hx(op[1])
         else:
@@ -449,8 +496,16 @@ def driver_lines(run):
                 effs.append("ae:%s:%s" % (e[1], C.hx(e[2])))
             elif e[0] == "sent":
                 effs.append("sent:" + C.hx(strip_ts(e[1].decode("utf-8"))))
+            elif e[0] == "socket-close":
+                effs.append("sockclose")
+            elif e[0] == "iohandler":
+                effs.append("iohandler")
+            elif e[0] == "exit":
+                effs.append("exit")
         nxt = list(chunks[n + 1]["enabled"] if n + 1 < len(chunks) else run.final_enabled)
         nxt += [b for b in ch.get("blocked_after", []) if b not in nxt]      # inside an adapter call that waits: the adapter's business
+        if "exit" in effs:
+            nxt = []                                                         # the process is gone
         en = ",".join(sorted((x for x in nxt if LIB.match(x)), key=lambda x: (0, 0) if x == "R" else (2, 0) if x == "W" else (1, int(x[1:]))))
         lines.append("k %s %s ; %s ; %s ; %s" % (tid, o, " ".join(effs), en, C.hx(ch["snap"])))
         idx.append(n)
@@ -872,4 +927,49 @@ def oracle_c07(run, A, V):
             V("welltyped-update-fails", "a well-typed listener call produced a failure notification: %r" % l["line"][:80])
 
 
-ORACLES = {"C07": oracle_c07, "C18": oracle_c18, "C14": oracle_c14, "C01": oracle_c01, "C02": oracle_c02, "C03": oracle_c03, "C16": oracle_c16, "C17": oracle_c17, "C19": oracle_c19}
+def oracle_c20(run, A, V):
+    """how the connection ends: an honoured close request, a failing read, a failing write (scenarios with a `tail`)"""
+    scn = run.scn
+    tail = scn.get("tail")
+    ev = [(t, ch["tid"]) + tuple(e) for t, ch in enumerate(run.chunks) for e in ch["events"]]
+    ioh = [e for e in ev if e[2] == "iohandler"]
+    exits = [e for e in ev if e[2] == "exit"]
+    if tail == "close":
+        if run.status != "quiescent":
+            V("close-does-not-finish", "after the close request the run ended with status %s" % run.status)
+            return
+        for name in ("R", "W"):
+            if name in run.alive:
+                V("close-threads", "thread %s still alive after an honoured close request (parked at %r)" % (name, run.alive[name]))
+        if run.sock.close_calls != 1:
+            V("close-socket", "socket closed %d times on an honoured close request" % run.sock.close_calls)
+        if run.tasks_unfinished:
+            V("close-pool", "accepted pool tasks did not complete: %r" % run.tasks_unfinished)
+        if ioh or exits or any(e[2] in ("send-on-closed", "recv-on-closed") for e in ev):
+            V("own-close-reported", "the server's own close() surfaced as an I/O problem: %r" % (ioh + exits)[:3])
+        t_close = next((t for t, ch in enumerate(run.chunks) if any(e[0] == "socket-close" for e in ch["events"])), None)
+        if t_close is not None and any(t > t_close and ch["tid"] == "W" for t, ch in enumerate(run.chunks)):
+            V("writer-after-close", "the writer thread ran after the socket had been closed")
+        return
+    read_failed = [e for e in ev if e[2] in ("recv-eof", "recv-reset")]
+    write_failed = [e for e in ev if e[2] == "send-fails"]
+    nfail = (1 if read_failed else 0) + (1 if write_failed else 0)
+    h = scn.get("io_handler", "absent")
+    if nfail == 0:
+        if ioh or exits:
+            V("spurious-io-report", "no read or write failed but the I/O handler / exit was invoked: %r" % (ioh + exits,))
+        return
+    if h == "absent" or h is True:
+        if len(exits) != 1 or len(ioh) != (0 if h == "absent" else 1):
+            V("io-failure-reporting", "handler=%r, %d failing thread(s): %d handler notifications, %d exits (expected %d and 1)" % (
+                h, nfail, len(ioh), len(exits), 0 if h == "absent" else 1))
+    else:
+        if exits or len(ioh) != nfail:
+            V("io-failure-reporting", "handler returns False, %d failing thread(s): %d handler notifications, %d exits (expected %d and 0)" % (
+                nfail, len(ioh), len(exits), nfail))
+    for e in ioh:
+        if not ((read_failed and e[1] == "R") or (write_failed and e[1] == "W")):
+            V("io-failure-wrong-thread", "I/O handler invoked from thread %s" % e[1])
+
+
+ORACLES = {"C20": oracle_c20, "C07": oracle_c07, "C18": oracle_c18, "C14": oracle_c14, "C01": oracle_c01, "C02": oracle_c02, "C03": oracle_c03, "C16": oracle_c16, "C17": oracle_c17, "C19": oracle_c19}
